@@ -58,6 +58,7 @@ Lemma rollback_pulls_cursor_back : forall fx st h st' w k,
 Proof.
   intros fx st h st' w k H Hs. unfold xrollback in H.
   destruct (negb (f_rollback fx) && existsb _ (credits (x_w st))); [discriminate|].
+  destruct (negb (f_rollback_order fx) && existsb _ (credits (x_w st))); [discriminate|].
   inversion H. subst st'. clear H. unfold status_of in *. cbn [x_status].
   induction (x_status st) as [|[k0 v0] r IH]; [discriminate|].
   cbn [map fst snd lookupN] in *. destruct (k0 =? w)%N.
@@ -73,6 +74,7 @@ Lemma rollback_keeps_other_status : forall fx st h st' w,
 Proof.
   intros fx st h st' w H. unfold xrollback in H.
   destruct (negb (f_rollback fx) && existsb _ (credits (x_w st))); [discriminate|].
+  destruct (negb (f_rollback_order fx) && existsb _ (credits (x_w st))); [discriminate|].
   inversion H. subst st'. clear H. unfold status_of. cbn [x_status].
   induction (x_status st) as [|[k0 v0] r IH]; [repeat split; auto|].
   cbn [map fst snd lookupN]. destruct (k0 =? w)%N.
